@@ -759,6 +759,67 @@ def sweep_harness(table, pyname, cname, flags):
     return harness
 
 
+# ---- garbage-collector support: traverse visits, and clear releases, exactly the object references a record owns ----------
+def _owned_fields(record):
+    """the PyObject-pointer fields of a record, from the struct declaration in the current source (function pointers, integers
+    and the object header excluded)"""
+    types = cenv.PROGRAM.record_types.get(record, {})
+    return [f_ for f_, t_ in types.items() if t_.strip().endswith("*") and "(" not in t_ and t_.split()[0].startswith("Py")]
+
+
+def gc_harness(ex):
+    import gc as _gc
+    which = ex.choice("record", 5)
+    o = _Sweep()
+    o.on_trait_change(lambda: None, "a")
+    o.on_trait_change(lambda: None)
+    it = cenv.new_interp()
+    if which == 4:
+        rec, s_ = "has_traits_object", cenv.hastraits_struct(it, o)
+        prefix = "has_traits"
+    else:
+        ct = o._trait(["a", "l", "p", "n"][which], 2)
+        ct._notifiers(True)
+        rec, s_ = "_trait_object", cenv.trait_struct_from_ctrait(it, ct)
+        prefix = "trait"
+    fields = _owned_fields(rec)
+    ex.check(len(fields) >= 4, "the record's object-pointer fields are read from the struct declaration")
+    held = [(f_, s_.f.get(f_, NULL)) for f_ in fields]
+    held = [(f_, v_) for f_, v_ in held if v_ is not NULL and v_ is not None]
+    visited = []
+    stop_at = ex.choice("visit_returns_nonzero_at", len(held) + 2)       # k-th visit aborts the traversal (== len+1: never)
+
+    def visit(interp, obj, arg):
+        visited.append(obj)
+        return 7 if len(visited) == stop_at else 0
+    it.api["__visit__"] = visit
+    problem = None
+    try:
+        r = it.call(prefix + "_traverse", [s_, FnPtr("__visit__"), NULL])
+        if 1 <= stop_at <= len(held):
+            ex.check(r == 7 and len(visited) == stop_at, "a non-zero result of the visit callback ends the traversal and is returned")
+        else:
+            ex.check(r == 0, "traverse returns 0 after visiting everything")
+            ex.check(len(visited) == len(held) and all(any(v_ is h_ for _f, h_ in held) for v_ in visited)
+                     and all(any(v_ is h_ for v_ in visited) for _f, h_ in held),
+                     "traverse visits every object reference the record owns, exactly once (a field the collector is not told "
+                     "about makes reference cycles through it uncollectable)")
+        it.st.rc.clear()
+        r2 = it.call(prefix + "_clear", [s_])
+        ex.check(r2 == 0 and all(s_.f.get(f_, NULL) is NULL for f_ in fields), "clear leaves every owned reference NULL")
+        bad = []
+        for f_, h_ in held:
+            want = -sum(1 for _f2, h2 in held if h2 is h_)
+            got = it.st.rc.get(id(h_), (None, 0))[1]
+            if got != want and h_ is not None:
+                bad.append("%s: %+d (expected %+d)" % (f_, got, want))
+        ex.check(not bad, "clear releases every owned reference exactly once")
+    except MemSafety as e:
+        problem = str(e)
+    ex.check(problem is None, "the garbage-collector support functions are memory-safe")
+    return {"record": rec}
+
+
 def notify_mutation_harness(ex):
     """a handler that removes itself (or adds another one) while call_notifiers is dispatching"""
     trait_level = ex.flag("trait_level_handler_too")
@@ -887,6 +948,10 @@ def obligations(tier, build):
                                       "receivers": "Int / List / Property / Any trait records, a HasTraits object with handlers"},
                               leverage="integer arguments (table indices, modes, flags); otherwise choice feasibility",
                               max_paths=30000, path_wall_s=120))
+    obs.append(Obligation("gc/traverse-clear", gc_harness, stubs=STUBS, witness_every=0,
+                          bounds={"records": ["Int / List / Property / Any trait records with notifier lists", "a HasTraits object with handlers"],
+                                  "visit callback": "returns non-zero at the k-th call, any k"},
+                          leverage="choice feasibility only; owned fields from the struct declarations of the current source"))
     obs.append(Obligation("access/delegate", delegate_access_harness, stubs=STUBS, witness_every=0,
                           bounds={"delegate": ["proper", "None", "lacks the attribute", "cycle (100 levels)"],
                                   "operations": ["read", "write valid", "write invalid", "delete"],
